@@ -631,6 +631,8 @@ class StmtMixin:
                 for o in self.exec_block(s.body, t):
                     if o.kind in ("normal", "continue"):
                         self.emit(tag + ".inv.preserved", s, o.st, ls.inv(self.inv_ctx(o.st, pre, {})))
+                        if ls.body_post is not None:
+                            self.emit(tag + ".body", s, o.st, ls.body_post(self.inv_ctx(o.st, pre, {})))
                         if dec0 is not None:
                             d1 = ls.decreases(self.inv_ctx(o.st, pre, {}))
                             self.emit(tag + ".decreases", s, o.st, S.And(dec0 >= 0, d1 < dec0))
@@ -713,6 +715,8 @@ class StmtMixin:
                     for o in self.exec_block(s.body, b1):
                         if o.kind in ("normal", "continue"):
                             self.emit(tag + ".inv.preserved", s, o.st, ls.inv(self.inv_ctx(o.st, pre, extra_for(i + 1))))
+                            if ls.body_post is not None:
+                                self.emit(tag + ".body", s, o.st, ls.body_post(self.inv_ctx(o.st, pre, extra_for(i + 1))))
                         elif o.kind == "break":
                             exits.append(o.st)
                         else:
@@ -744,6 +748,8 @@ class StmtMixin:
                     for o in self.exec_block(s.body, b1):
                         if o.kind in ("normal", "continue"):
                             self.emit(tag + ".inv.preserved", s, o.st, ls.inv(self.inv_ctx(o.st, pre, {done_name: d1})))
+                            if ls.body_post is not None:
+                                self.emit(tag + ".body", s, o.st, ls.body_post(self.inv_ctx(o.st, pre, {done_name: d1})))
                         elif o.kind == "break":
                             exits.append(o.st)
                         else:
